@@ -113,7 +113,7 @@ def spec_law(model, nodes, edges, pv, state, ppt=None):
                 per.append({'R': Fraction(1)})
         return _product(per), ntr
     if model == 'SEIR':
-        pa, pi, ps, pr = P['pAux'], P['pInfect'], P['pRemove'], P['pRemove']
+        pa, pi, ps, pr = P['pAux'], P['pInfect'], P.get('pSym', P['pRemove']), P['pRemove']
         per = []
         for n in nodes:
             c = comp[n]
@@ -477,7 +477,7 @@ DY = [0.125, 0.25, 0.5, 0.5, 0.75, 1.0]
 
 
 def gen_pv(rnd):
-    return {'pSeed': 0.5, 'pInfect': rnd.choice(DY), 'pRemove': rnd.choice(DY + [0.0]), 'pAux': rnd.choice(DY + [0.0]),
+    return {'pSeed': 0.5, 'pInfect': rnd.choice(DY), 'pRemove': rnd.choice(DY + [0.0]), 'pAux': rnd.choice(DY + [0.0]), 'pSym': rnd.choice(DY),
             'tInf': 1.0, 'eff': 0.0, 'off': 0.0}
 
 
